@@ -22,7 +22,7 @@ constexpr auto copy_n(InputIt first, Size count, OutputIt result) -> OutputIt
             *(++result) = *(++first);
         }
     }
-    return result;
+    return count > 0 ? ++result : result;
 }
 
 } // namespace etl
